@@ -26,6 +26,26 @@ CLAIMED = {
   note="Same bounds as C03; open/completed state is read from the HTLC query, amounts and directions from the model; SDK/bank/rapid trusted.",
   technique=TECH + ": state machine vs reference model, invariants at every block boundary, shrinking to JSON replay",
   ref="DESIGN.md §4 C04"),
+ "C05": dict(
+  text="rapid state machine over create (start now or later, 1-2 reward denoms with different exhaustion heights, tiny and huge rates, editable or not) / stake / unstake (full, partial, over) / harvest / adjust (top-up and/or new rate) / destroy / blocks, by four farmers, the creator and strangers, with a 1/4 bias to stop exactly at a pool's start, end or end-1 height and aim the next operation at that pool; after every step the stored stakes equal the stakes made and sum to the recorded pool total, the farm account equals recorded totals plus recorded remaining budgets, an unstake of at most the recorded stake succeeds and pays exactly the amount plus the pending reward queried just before; a full-withdrawal epilogue (every farmer withdraws everything, in a generated order) runs on a branch at generated points, at the end of the history and again after every pool has expired, and each withdrawal must succeed.",
+  note="Bounded random search (<=3 farm pools, 4 farmers, <=60-100 ops, amounts <=2^100: beyond that the 315-bit decimal accumulator overflows for reasons of number width); refund to the community pool route is not exercised (the escrow collector account is not registered in the test app); SDK/bank/rapid trusted.",
+  technique=TECH + ": state machine vs math/big reference model with withdrawal epilogue on branches, shrinking to JSON replay",
+  ref="DESIGN.md §4 C05"),
+ "C06": dict(
+  text="The C05 machine with the reward oracle: an exact rational model steps every pool and denomination block by block (released += rate only while somebody is staked; budget = remaining + released; end height = start + min floor(budget/rate), recomputed per rule on adjust), the refund is checked exactly once by full balance-sheet deltas on every operation and block, and each farmer's paid + pending must stay within (interactions+1) base units plus the 10^-18*stake accumulator truncation of the exact stake-time share; every pool is run to its end. A metamorphic test runs each history twice, the second time with 0-3 extra harvests before every operation, and compares payouts directly.",
+  note="Same bounds as C05; SDK/bank/rapid trusted.",
+  technique=TECH + ": state machine vs exact-rational reference model + metamorphic relation (harvest frequency), shrinking to JSON replay",
+  ref="DESIGN.md §4 C06"),
+ "C07": dict(
+  text="rapid state machine over define / bind / update / enable / disable / refund-deposit / set-withdraw-address / call (one-shot and repeated, provider subsets, fee caps around the discounted price) / respond (right, wrong, duplicate, late) / withdraw / parameter changes / blocks, with pricing generated from the module's own pricing grammar (time and volume promotions, several denoms through a table-driven exchange-rate source) and a consumer that runs out of money; a big-number model predicts the exact coin moves of every operation and, after every step, the three escrow equations (deposit escrow = recorded deposits; request escrow = fees of active requests + unwithdrawn earned fees; owner tally = sum of provider tallies), and per end-block the refunds, slashes and charges per consumer and the whole balance-sheet change.",
+  note="Bounded random search (<=4 providers, 3 consumers, <=50-80 ops); the oracle price source is a table-driven module service registered by the harness; SDK/bank/rapid trusted.",
+  technique=TECH + ": state machine vs big-number reference model with exact balance-sheet deltas, shrinking to JSON replay",
+  ref="DESIGN.md §4 C07"),
+ "C08": dict(
+  text="The C07 machine with the request/context oracle: respond succeeds exactly when the provider is the addressed one and the request is still active; one outcome per request (including the count of active markers in the store); the contents of every issued batch are predicted from the provider filter; batch issue heights are read from the batch counter and checked for timing between consecutive batches of unmodified contexts, no batch while paused, no batch beyond the total, one-shot contexts issuing one batch and disappearing; only the consumer may pause/start/kill/update; a harness module registered through the keeper's callback API records callbacks, whose exact set per step (one per completed batch, with outputs iff the threshold was met) is compared; slash and refund effects at expiry. Exchange-rate outages are generated so that unpriceable batches are reached.",
+  note="Same bounds as C07; contexts created through the keeper API with thresholds 1..N in addition to MsgCallService; SDK/bank/rapid trusted.",
+  technique=TECH + ": state machine vs reference model, callback recorder, shrinking to JSON replay",
+  ref="DESIGN.md §4 C08"),
  "C09": dict(
   text="rapid state machine over issue / edit / mint / burn / transfer-owner (v1 and legacy messages) by owners, former owners, strangers and poor accounts, symbols and min units from overlapping pools so that collisions happen, scales 0..18, amounts placed at the cap, one over it and in fractions of a main unit, parameter changes by the authority; a math/big model predicts acceptance and the exact balance-sheet delta including the fee split, and checks identity uniqueness, owner index, supply <= cap after every step, burned tally and an empty module account.",
   note="Bounded random search (<=40-80 ops, 6 users, 8-word symbol pools); the fee factor is re-evaluated with float64 like the code (no symbol length lies near a rounding boundary, asserted at run time); ante handlers are not run; SDK/bank/rapid trusted.",
@@ -46,6 +66,11 @@ CLAIMED = {
   note="Bounded random search (<=60 blocks, 4 funded users, default parameters except what histories change); queue membership after import is not observable through genesis or queries and is not asserted; SDK/IAVL/rapid trusted.",
   technique=TECH + ": state machine over blocks, round-trip (export -> import -> export) and differential query oracle, shrinking to JSON replay",
   ref="DESIGN.md §4 C12"),
+ "C13": dict(
+  text="The all-module history generator on the ABCI driver (real FinalizeBlock with every module's begin and end blocker), biased towards objects that fall due in the block being built (farm pool at its start/end height: adjust, destroy, stake, harvest; request context with a batch starting or expiring: pause, start, kill, update; HTLC at its expiry: claim). After every block: the block completed without error or panic; HTLC expiry-queue entries are exactly the open contracts, none at or below the height, and the block's refund events are exactly the contracts open with that expiry; the farm queue holds exactly the pools not yet ended and ended pools hold no reward budget; every service queue entry names an existing context above the height, running contexts have exactly one entry, paused/killed ones at most one; the random queue holds nothing below the height and every plain request due was answered by exactly one event and is readable.",
+  note="Bounded random search (<=80-120 blocks so that the 50-block minimum HTLC time lock expires, 4 funded users, default parameters; parameter sets crossed with block hooks are C16's differential); exactly-once amounts are decided by C03/C06/C07/C08; SDK/IAVL/rapid trusted.",
+  technique=TECH + ": state machine over blocks with store-level queue invariants and per-block event sets, shrinking to JSON replay",
+  ref="DESIGN.md §4 C13"),
  "C14": dict(
   text="rapid state machine over issue-class (all four flag combinations) / mint / edit / transfer (all-sentinel, one field changed, mixed; to self) / burn / class hand-over by owners, creators and strangers over regular and odd ids; a reference map predicts acceptance exactly for every clause (owner-only edit/transfer/burn, mint restriction, update restriction on edit and on transfer-with-changes, creator-only hand-over, no id reuse while a token exists) and after every message every query (Denom, Denoms, Collection, NFT, Supply per class and per owner with their sum, NFTsOfOwner) and the supply invariant are compared with the model.",
   note="Bounded random search (14 class ids, 9 token ids, 4 senders, <=40-80 ops); input-syntax rules follow the code where it is laxer (counted); SDK/rapid trusted.",
@@ -56,6 +81,11 @@ CLAIMED = {
   note="Bounded random search (<=40-80 ops, 6 accounts); SDK/rapid trusted.",
   technique=TECH + ": state machine vs big.Int reference ledger, shrinking to JSON replay",
   ref="DESIGN.md §4 C15"),
+ "C16": dict(
+  text="Two machines. Authority: parameter sets over the whole message space of coinswap, farm, htlc, service and token (every decimal from absent/negative/0/10^-18 to >1 and 2^315-1, coins with nil/negative/zero/huge amounts and empty/odd denoms, durations 0/1ns/max/negative, integers min/0/1/max, HTLC asset lists with boundary values) submitted by the authority, users, the module account and garbage senders through the router, the Msg server directly, SetParams and genesis import: a non-authority never changes anything, the authority stores exactly the submitted set iff the module's own Validate() accepts it, a rejected set is never stored by genesis. Differential: on a prepared all-module state, for an accepted non-default set P and each of 43 catalogued operations (every Msg method of the five modules, enumerated through the protobuf registry) and for runs of 1-61 blocks, the operation under the restored defaults and under P are compared: violation iff the default run ends in success or an ordinary rejection and the run under P panics (for block hooks also an error or a 256-bit overflow).",
+  note="Bounded random search over parameter values and states; one module's parameters differ from the defaults at a time; a 256-bit range panic in a message handler counts as rejection; SDK/rapid trusted.",
+  technique=TECH + ": state machine (authority/validity oracle) + differential testing under default vs generated parameter sets, shrinking to JSON replay",
+  ref="DESIGN.md §4 C16"),
  "C17": dict(
   text="rapid state machine on top of the service flow: create/start/pause/edit feeds by creator and strangers (latest-history shrinking and growing, thresholds, provider sets), providers answer with decimal strings of either sign (0-10 fractional digits, 1e-8..1e15), error results or not at all, a poor creator whose funds run out, blocks. Every completed batch (complete_batch event) is judged with the outputs the harness itself submitted and the threshold in force when the batch was issued: exactly one new value iff the threshold was met, equal to the exact big.Rat aggregate within 0.5e-8 + (n+2)*2^-52*max|x|, stamped with the block time; after every step values are newest-first, never more than latest-history, otherwise unchanged; the feed state index mirrors the request context; strangers are rejected without effect.",
   note="Bounded random search (<=4 feeds, 3 providers, <=120 steps); answers lacking the JSON field are outside the numeric clause; SDK/bank/rapid trusted.",
